@@ -10,3 +10,4 @@ import HitenModel.Props.C10
 import HitenModel.Props.C19
 import HitenModel.Props.C20
 import HitenModel.Props.C20_Tree
+import HitenModel.Props.C11
